@@ -284,8 +284,11 @@ pub fn ctor(name: &str, blob: &[u8]) -> String {
             mask_efi_padding(&s, descs.len())
         }
         "efibs" => {
+            // `new()` and `Default::default()` are both public constructors: the image of the one that deviates is reported
             let t = EFIBootServicesNotExitedTag::new();
-            img(&t, String::new())
+            let d = EFIBootServicesNotExitedTag::default();
+            let (a, b) = (img(&t, String::new()), img(&d, String::new()));
+            if a == b { a } else { b }
         }
         "ih32" => {
             let t = EFIImageHandle32Tag::new(r.u32());
@@ -316,7 +319,9 @@ pub fn ctor(name: &str, blob: &[u8]) -> String {
         }
         "h_end" => {
             let t = h::EndHeaderTag::new();
-            himg(&t, String::new())
+            let d = h::EndHeaderTag::default();
+            let (a, b) = (himg(&t, String::new()), himg(&d, String::new()));
+            if a == b { a } else { b }
         }
         "h_entry" => {
             let t = h::EntryAddressHeaderTag::new(hflag(r.u16()), r.u32());
@@ -438,6 +443,19 @@ pub fn boxed_case(t: &[&str]) -> String {
                 _ => h::HeaderTagType::Relocatable,
             };
             boxed_one(h::HeaderTagHeader::new(ty, hflag(fl), size), &refs, |x| x.size() as usize)
+        }
+        // the two structure headers have no public constructor: they are copied out of an (empty) built structure; the case
+        // line carries exactly that image (size fields are overwritten by new_boxed anyway)
+        "bi" => {
+            let b = multiboot2::Builder::new().build();
+            let hdr = b.header().clone();
+            boxed_one(hdr, &refs, |x| multiboot2::BootInformationHeader::total_size(x) as usize)
+        }
+        "hb" => {
+            let arch = if u32::from_le_bytes(hb[4..8].try_into().unwrap()) == 4 { h::HeaderTagISA::MIPS32 } else { h::HeaderTagISA::I386 };
+            let b = h::Builder::new(arch).build();
+            let hdr = b.header().clone();
+            boxed_one(hdr, &refs, |x| x.length() as usize)
         }
         k => format!("unknown-kind:{}", k),
     })
